@@ -560,6 +560,10 @@ func Edits(d *Dialect) []Edit {
 				p := I(T(s, "t"), "idx_a").Parts[0]
 				p.Attrs = append(p.Attrs, &postgres.IndexColumnProperty{NullsFirst: true})
 			}, []string{mt("ModifyIndex(idx_a)[parts]")}},
+			// NULLS NOT DISTINCT spelled on the desired side only (the current side says nothing, i.e. distinct).
+			Edit{"unique_index_nulls_not_distinct", []string{"idx:uq_b"}, func(s *schema.Schema) {
+				I(T(s, "t"), "uq_b").AddAttrs(&postgres.IndexNullsDistinct{V: false})
+			}, []string{mt("ModifyIndex(uq_b)[attr]")}},
 			Edit{"varbit_unlimited_to_len_1", []string{"col:bv"}, func(s *schema.Schema) { C(T(s, "t"), "bv").Type.Type = &postgres.BitType{T: "bit varying", Len: 1} }, []string{mt("ModifyColumn(bv)[type]")}},
 			Edit{"varbit_unlimited_to_len_8", []string{"col:bv"}, func(s *schema.Schema) { C(T(s, "t"), "bv").Type.Type = &postgres.BitType{T: "bit varying", Len: 8} }, []string{mt("ModifyColumn(bv)[type]")}},
 			Edit{"bit_1_to_bit_8", []string{"col:bt"}, func(s *schema.Schema) { C(T(s, "t"), "bt").Type.Type = &postgres.BitType{T: "bit", Len: 8} }, []string{mt("ModifyColumn(bt)[type]")}},
@@ -700,6 +704,9 @@ func Equivalences(d *Dialect) []Edit {
 				c := C(T(s, "t"), "id")
 				c.Attrs = dropAttr[*postgres.Identity](c.Attrs)
 				c.AddAttrs(&postgres.Identity{Generation: "ALWAYS"})
+			}, nil},
+			Edit{"unique_index_nulls_distinct_spelled_out", nil, func(s *schema.Schema) {
+				I(T(s, "t"), "uq_b").AddAttrs(&postgres.IndexNullsDistinct{V: true})
 			}, nil},
 			Edit{"index_type_btree_explicit", nil, func(s *schema.Schema) { I(T(s, "t"), "idx_a").AddAttrs(&postgres.IndexType{T: "BTREE"}) }, nil},
 			Edit{"index_predicate_wrapped", nil, func(s *schema.Schema) {
